@@ -37,6 +37,8 @@ class LogEvolution(pg.evolution.Evolution):
   def _feedback(self, dna, reward):
     self.log.append((tuple(dna.to_numbers()), reward))
     super()._feedback(dna, reward)
+    self.seq = getattr(self, 'seq', [])
+    self.seq.append(pg.evolution.base.get_feedback_sequence_number(dna))
 
 
 def space():
@@ -71,7 +73,8 @@ def make_harness(spec_name):
   study = f'c16_{os.getpid()}_{_N[0]}'
   cfg = HARNESSES[spec_name]
   algo = make_algo(cfg['algo'])
-  sp = space()
+  # a hyper value makes every pg.sample call build its own (equal) DNASpec, as user code does
+  sp = (lambda: pg.Dict(x=pg.oneof([0, 1, 2, 3, 4, 5]))) if cfg.get('hyper_space') else space()
   n = cfg['n']
   seen = [[] for _ in cfg['workers']]
   events = []
@@ -82,7 +85,7 @@ def make_harness(spec_name):
   def worker(i, group, plan):
     def body():
       step = 0
-      for example, feedback in pg.sample(sp, algo, num_examples=n, name=study, group=group, early_stopping_policy=policy):
+      for example, feedback in pg.sample(sp() if callable(sp) else sp, algo, num_examples=n, name=study, group=group, early_stopping_policy=policy):
         seen[i].append(feedback.id)
         mine = by_group.setdefault(group, [])
         for y, ty in mine:
@@ -132,6 +135,8 @@ HARNESSES = {
     'H5-end-loop': dict(algo='sweeping', n=4, workers=[('g0', ['done', 'end_loop']), ('g1', ['done'])], same_group=False, may_end=True),
     'H6-early-stop': dict(algo='evolution', n=3, workers=[('g0', ['measure+done']), ('g1', ['measure+done'])], same_group=False,
                           early_stop=True),
+    'H9-hyper-value-early-stop': dict(algo='sweeping', n=3, workers=[('g0', ['measure+done']), ('g1', ['measure+done'])], same_group=False,
+                                      early_stop=True, hyper_space=True),
     'H7-same-group-evolution': dict(algo='evolution', n=3, workers=[('g', ['done']), ('g', ['done'])], same_group=True),
     'H8-same-group-one-leaves': dict(algo='sweeping', n=3, workers=[('g', ['done']), ('g', ['hold'])], same_group=True),
     'H4-three-workers': dict(algo='sweeping', n=4, workers=[('g0', ['done']), ('g1', ['skip', 'done']), ('g1', ['done'])],
@@ -174,6 +179,9 @@ def check(s, observe, cfg, rec, tr, hname):
     want = sorted(tuple(t.dna.to_numbers()) for t in done)
     if fed != want:
       bad.append(('feedback-not-exactly-once', f'completed feasible trials {want}, algorithm received feedback for {fed}'))
+    seq = sorted(x for x in getattr(algo, 'seq', []) if x is not None)
+    if getattr(algo, 'seq', None) and seq != list(range(1, len(seq) + 1)):
+      bad.append(('feedback-sequence-numbers', f'the reports were numbered {getattr(algo, "seq")} (each report has its own number 1..{len(seq)})'))
     if algo.num_feedbacks != len(done):
       bad.append(('num_feedbacks', f'num_feedbacks={algo.num_feedbacks}, completed feasible trials={len(done)}'))
     if algo.num_proposals != len(trials):
